@@ -31,7 +31,7 @@ theorem obInv0 : Inv obCtx obS0 [⟨"G", "", 0, []⟩] := by
   have hB : bookOf obCtx.p obCtx.own [⟨"G", "", 0, []⟩] = {} := rfl
   constructor
   · rw [hB]
-    exact ⟨fun _ _ _ => rfl, fun _ => rfl, fun _ => rfl, fun _ => rfl, fun _ => rfl, fun _ => rfl, fun _ => rfl⟩
+    exact ⟨fun _ _ _ => rfl, fun _ => rfl, fun _ => rfl, fun _ => rfl, fun _ => rfl, fun _ => rfl⟩
   · intro w hw
     rw [hB, obReady] at *
     have : w = "w1" := by simpa using hw
